@@ -237,7 +237,7 @@ func partA(e *env, res *engine.Result, shard, n int) {
 	}
 	res.Extra["partA_scenarios"] = len(scs)
 	for i, sc := range scs {
-		if i%n != shard {
+		if i%n != shard || engine.SkipScenario(sc.String()) {
 			continue
 		}
 		restore := w.Branch()
